@@ -900,7 +900,7 @@ Proof. destruct k; cbn; tauto. Qed.
 
 Lemma pav_mk o k z cols f :
   print_arg_val_f (S f) o [mk k z] cols None = Some (tok_k k z, len (tok_k k z), cols + len (tok_k k z), false).
-Proof. destruct k; reflexivity. Qed.
+Proof. destruct k; cbn [mk print_arg_val_f]; reflexivity. Qed.
 
 Lemma types_match_kind pv k b : scalar pv ->
   types_match (av_type pv) (av_type (mk k b)) = (av_type pv =? av_type (mk k b)).
@@ -909,10 +909,11 @@ Proof. intros _. unfold types_match. destruct k; cbn; destruct (av_type pv =? _)
 Lemma pav_scalar o v rest cols prev f : scalar v ->
   print_arg_val_f (S f) o (v :: rest) cols prev =
   match print_scalar o v cols with Some (t, w, c) => Some (t, w, c, false) | None => None end.
-Proof. destruct v; cbn [scalar]; try tauto; intros _; reflexivity. Qed.
+Proof. destruct v; cbn [scalar]; intros H; try contradiction; cbn [print_arg_val_f]; reflexivity. Qed.
 
 Lemma pavf_rep o n h r cols prev f :
-  print_arg_val_f (S f) o (VRep n h :: r) cols prev = print_range (print_arg_val_f f) o (VRep n h :: r) cols prev.
+  print_arg_val_f (S f) o (VRep n h :: r) cols prev
+  = print_range (print_arg_val_f f) (print_arr_f f) o (VRep n h :: r) cols prev.
 Proof. reflexivity. Qed.
 
 Lemma print_range_const o n a0 y0 cols prev t w c' :
@@ -1213,7 +1214,10 @@ Proof.
 Qed.
 
 Lemma top_plain inp cols prev b : hd_type inp <> 97 -> print_arg_val_top o inp cols prev b = print_arg_val o inp cols prev.
-Proof. destruct inp as [|v r]; [reflexivity|]. destruct v; cbn [hd_type av_type]; intros H; try reflexivity. congruence. Qed.
+Proof.
+  destruct inp as [|v r]; [reflexivity|].
+  destruct v; cbn [hd_type av_type]; intros H; try (exfalso; apply H; reflexivity); cbn [print_arg_val_top]; reflexivity.
+Qed.
 
 Lemma print_loop_iseq : forall fuel args prev i n acc pend wrt cols awtl text w,
   Forall goodc args -> Z.of_nat (length args) < 2 ^ 31 -> n = i + Z.of_nat (length args) ->
